@@ -466,6 +466,28 @@ def r11_7(run):
     c10.wrap_always(run, 'R11.7')
 
 
+def r11_14(run):
+    """save() leaves a pending tracked list in place: the list the caller read and edited is the object the view keeps after the
+    save (only a value that was *not* a list - a string assigned to a list option - is parsed and wrapped).  Re-wrapping a tracked
+    list copies it: the caller's handle then edits an orphan whose change callback marks the *copy* pending, and the next save
+    sends the old values"""
+    sv = CU(run, 'save')
+    g = cfg_of(sv)
+    k = 0
+    for c in calls_in(sv):
+        if dotted(c.func) != '_ListWrapper' or not c.args or not isinstance(c.args[0], ast.Name):
+            continue
+        nm = c.args[0].id
+        for n in g.nodes_containing(c):
+            k += 1
+            gd = g.guarded_by(n, lambda t: isinstance(t, ast.Call) and dotted(t.func) == 'isinstance' and len(t.args) == 2 and dotted(t.args[0]) == nm and dotted(t.args[1]) == 'list')
+            fresh = any(lab == 'F' for _, lab in gd)
+            run.ob('R11.14', sv, c, 'save() wraps only values that were not lists; a pending tracked list stays the same object', fresh, slot='save-keeps-list-identity',
+                   message='save() builds a new _ListWrapper from %s also when the pending value already is a (tracked) list: the view then holds a copy, the list the '
+                           'caller read and edited is orphaned, and its next edit is saved with the old values' % nm)
+    run.floor('R11.14', '_ListWrapper constructions in save', k, 1)
+
+
 def r11_8(run):
     from . import c10
     c10.wrapper_callbacks(run, 'R11.8')
@@ -761,6 +783,7 @@ RULES = [
     ('R11.11', 'forward must-be-list analysis: every _ListWrapper(x, ...) in TorConfig gets a flat list on every path', r11_11),
     ('R11.12', 'a change event is applied to every option it names; bootstrap answers are not published late in bulk', r11_12),
     ('R11.13', 'bootstrap: on every answer-to-store path on which the option is set, the stored value depends on the GETCONF answer (path dependency walk)', r11_13),
+    ('R11.14', 'save() re-wraps only non-list values (a pending tracked list keeps its identity in the view)', r11_14),
     ('R11.6', 'no dropped Deferred in the configuration bootstrap (every GETCONF is awaited before the view is declared ready)', r11_6),
     ('R11.5', 'sibling agreement: default lookup + parse on the unset leg in _do_setup and _conf_changed; key-form agreement of list_parsers writers/reader', r11_5),
     ('R11.1', 'store-site typing: every value stored under a Tor option key that may be list-typed is a _ListWrapper (or excluded by a dominating test / copied from the wrapped pending set)', r11_1),
@@ -772,6 +795,7 @@ RULES = [
 from ..selftest import M  # noqa: E402
 F = 'txtorcon/torconfig.py'
 MUTANTS = [
+    M('save-rewraps-tracked-lists', F, "                if isinstance(value, list):\n                    value = _ListWrapper(\n                        value, functools.partial(self.mark_unsaved, real_name))\n            self.config[real_name] = value", "            if isinstance(value, list):\n                value = _ListWrapper(\n                    value, functools.partial(self.mark_unsaved, real_name))\n            self.config[real_name] = value", ['R11.14']),
     M('helper-signature-changed-one-site', F, "    def _find_real_name(self, name):\n", "    def _find_real_name(self, name, strict):\n", ['R-X']),
     M('event-skips-pending-options', F, "            real_name = self._find_real_name(k)\n            if real_name in self.list_parsers:", "            real_name = self._find_real_name(k)\n            if real_name in self.unsaved:\n                continue\n            if real_name in self.list_parsers:", ['R11.12']),
     M('single-default-line-as-str', F, "                    parsed = defaults.get(rn, [])\n                    if not isinstance(parsed, list):\n                        parsed = [parsed]  # just one default line\n", "                    parsed = defaults.get(rn, [])\n", ['R11.11']),
